@@ -65,6 +65,10 @@ def enumerate_cases(tier, master):
                 c = copy.deepcopy(sh)
                 c['faults'] = [{'kind': 'drop_rx', 'k': k, 'r': 'R'}]
                 cases.append(c)
+                c = copy.deepcopy(sh)
+                c['faults'] = [{'kind': 'drop', 'k': k}]
+                c['early_follow_ms'] = 100
+                cases.append(c)
         for k in range(F + 1):
             for node in ('O', 'R'):
                 c = copy.deepcopy(sh)
@@ -101,6 +105,13 @@ def generate(rng, tier, i):
             f['r'] = rng.choice(['R', 'R2'])
         faults.append(f)
     scn['faults'] = faults
+    if mode == 'bam' and rng.random() < 0.5:
+        # the same sender announces its next broadcast before the receivers have given the damaged one up (T1).
+        # Exactly one fault in such a run: with one loss in each of the two broadcasts (a data packet of the first, the
+        # announcement of the second) no J1939-21 receiver can tell the packets of the second from the rest of the first -
+        # that ambiguity belongs to the protocol, not to the library, and is outside "a single frame of a transfer is lost"
+        scn['early_follow_ms'] = rng.choice([20, 100, 300, 600])
+        scn['faults'] = scn['faults'][:1]
     return scn
 
 
@@ -139,6 +150,16 @@ def execute(scn, keep_log=False, hook=None):
     t_start = sim.now
     ok = O.cas[0].send_pgn(0, pf, ps, 6, list(data))
     poll()
+    data_e = None
+    early = {'ok': None}
+    if scn.get('early_follow_ms') is not None and mode == 'bam':
+        data_e = payload(scn['fill'] + 7, scn['len'] + 2)
+        per0 = 60 if fd else 7
+        npk0 = (scn['len'] + per0 - 1) // per0
+
+        def early_send():
+            early['ok'] = O.cas[0].send_pgn(0, pf, ps, 6, list(data_e))
+        sim.after(int(((npk0 + 2) * (0.010 if fd else 0.050) + scn['early_follow_ms'] / 1000.0) * 1e9), early_send, 'op')
     if ok is not True:
         viol.append({'clause': 'send-refused', 'rank': 2, 'msg': 'first send_pgn returned %r' % (ok,)})
     # run the faulty transfer to its end: transfer time + the longest timeout + margin
@@ -146,6 +167,8 @@ def execute(scn, keep_log=False, hook=None):
     npk = (scn['len'] + per - 1) // per
     bam_iv = 0.010 if fd else 0.050
     horizon = (npk + 2) * (bam_iv if mode == 'bam' else 0.02) + 3.0 + 1.0
+    if scn.get('early_follow_ms') is not None and mode == 'bam':
+        horizon += (npk + 4) * bam_iv + scn['early_follow_ms'] / 1000.0
     sim.run_for(horizon)
     polling['on'] = False
     t_first_end = sim.now
@@ -183,6 +206,11 @@ def execute(scn, keep_log=False, hook=None):
             continue
         key = (d['stack'], d['l'])
         per_listener[key] = per_listener.get(key, 0) + 1
+        if data_e is not None and d['data'] == bytes(data_e) and d['pgn'] == pgn and d['sa'] == O_ADDR:
+            key2 = (d['stack'], d['l'], 'early')
+            per_listener[key2] = per_listener.get(key2, 0) + 1
+            per_listener[key] -= 1
+            continue
         if d['data'] != exact or d['pgn'] != pgn or d['sa'] != O_ADDR:
             kind = 'truncated' if (d['data'] is not None and exact.startswith(d['data'])) else 'mixed'
             viol.append({'clause': 'corrupt-delivery', 'rank': 1, 'feat': {'mode': mode, 'kind': kind},
@@ -191,6 +219,7 @@ def execute(scn, keep_log=False, hook=None):
     for key, n in per_listener.items():
         if n > 1:
             viol.append({'clause': 'duplicate-delivery', 'rank': 1, 'feat': {'mode': mode}, 'msg': '%s/%s got the message %d times' % (key[0], key[1], n)})
+    per_listener = {k: v for k, v in per_listener.items() if v > 0}
     if per_listener:
         stats['delivered_despite_fault'] = 1
     else:
